@@ -82,6 +82,22 @@ func c03Gen(seed int64, tier string) []drv.Scenario {
 		}
 		out = append(out, sc)
 	}
+	// an ephemeral bucket with rollback mitigation left enabled in the configuration: nothing is ever persisted there, the
+	// library runs without the mitigation and delivers everything
+	er := rand.New(rand.NewSource(seed*41 + 13))
+	for k := 0; k < n/50; k++ {
+		sp := c03Spec(er, 1)
+		sp.Ephemeral, sp.RollbackMitigation, sp.RMIntervalMs = true, true, 20
+		sp.Membership, sp.API, sp.FirstInfo = "", false, [2]int{}
+		var steps []Step
+		for _, st := range sp.Steps {
+			if st.Op == "append" || st.Op == "barrier" {
+				steps = append(steps, st)
+			}
+		}
+		sp.Steps = append(steps, Step{Op: "barrier"})
+		out = append(out, drv.Scenario{Kind: "wire", Seed: seed, Params: mustJSON(sp), TimeoutS: 90})
+	}
 	return out
 }
 
